@@ -173,6 +173,30 @@ check("C20",
       "operands; the remaining step is compositionality of evaluation (C01/C05), an assumption. Known finding listed in known_findings.json: level 0 returns bare atoms that do not compile. " + TRUST,
       "SSA symbolic execution with rand as nondeterministic stub + SMT vs reference evaluators", "DESIGN.md §4 C20")
 
+
+# additions to the bounds made after the sixth batch of seeded changes (appended to the level notes)
+EXTRA = {
+ "C01": "Also: integer literals of 1..5 arbitrary digits (leading zeros, minus sign) as operand, list element, in infix notation and under folding must denote their decimal value; every if-shape again with a variable spelled like the compiler's end-if marker.",
+ "C02": "Also: programs holding constants of different types that print alike (1 / \"1\", true / \"true\"), xor groups next to and / or groups.",
+ "C04": "Also: available variables may hold nil (variant splitn).",
+ "C05": "Also (library fetchers): a registered variable without a value under NewCtxFromVars' name-keyed fetcher is unavailable, and a value Set on the same context afterwards is read.",
+ "C06": "Also: every entry of the built-in operator table on 0..2 (3 thorough) operands of any type, directly, over variables and over folded constants.",
+ "C08": "Also: Compile(nil, ...) and CopyConfig(nil) carry no state between calls; names the config does not know (accepted by option or directive) leave the caller's config untouched; the two configs of the cross variant price different names.",
+ "C09": "Also: stack depths 127..129 and 256 with if / and / or at the deepest point; operators of 127..300 operands in every position of an if; event-mode programs of 16383..25000 nodes built from two-leaf operators with FastEvaluation on and off.",
+ "C10": "Also: operators registered under built-in names (direct map fill) are never invoked; membership in the empty list over failing / effectful operands.",
+ "C11": "Also: empty []int / []int32 bindings.",
+ "C12": "Also: the optimisation switches left unset (library defaults) in the plain and in the event-mode configuration. A consumer that runs concurrently with the evaluation (events dropped on a full buffered channel) is outside what a sequential executor decides.",
+ "C13": "Also: the literal among integer / Boolean / string constants that print alike.",
+ "C14": "Also: empty, one-character, consecutive, leading and trailing (no final line break) comments.",
+ "C15": "Also: identifiers starting with an underscore, containing dots, non-ASCII letters, or starting with an operator word.",
+ "C16": "Also: and/or with one operand written twice (occurrence-aware matching) and shapes over unregistered variables (AllowUndefinedVariable).",
+ "C17": "Also: list literals with arbitrary element characters / digits (prefix and infix, with and without optimisations) and lists changed in place between two calls.",
+ "C19": "Also: version components of 19 / 20 digits around 2^63 and 2^64 (must be rejected unless the value is <= 9999); parameter counts / types of every date operator.",
+ "C20": "Also: the GenVariables option built from a map that receives its values afterwards (level 0).",
+}
+DEGRADE = (" If a harness file no longer type-checks against the tree (an unexported name it uses was renamed), the loader substitutes its public-API fallback "
+           "or drops it and prints DEGRADED lines; the units of dropped entries are reported as not run, the rest of the check still decides.")
+
 def main():
     checks = []
     for pid in ALL:
@@ -186,7 +210,7 @@ def main():
             "replay_cmd_template": "./bin/vcheck -p %s -replay {path}" % pid,
             "engine": "gosym",
             "level_claimed": {"category": "model_checking", "text": c["text"], "design_ref": c["design_ref"]},
-            "level_note": c["note"],
+            "level_note": c["note"] + (" " + EXTRA[pid] if pid in EXTRA else "") + DEGRADE,
             "technique": c["technique"],
         }
         if c["thorough"]:
